@@ -23,7 +23,7 @@ Cols32 == [k \in 1..32 |->
              IF k = 1 THEN IntCol(CName(k), "i16", FALSE, TRUE)
              ELSE CASE k % 4 = 0 -> IntCol(CName(k), "i32", TRUE, FALSE)
                     [] k % 4 = 1 -> IntCol(CName(k), "i16", k % 8 = 1, FALSE)
-                    [] k % 4 = 2 -> StrCol(CName(k), 8, TRUE, FALSE, <<>>)
+                    [] k % 4 = 2 -> StrCol(CName(k), IF k = 2 THEN 1 ELSE 8, TRUE, FALSE, <<>>)     \* C02 is CHAR(1): for a string the low byte 1 is a width
                     [] OTHER     -> MkCol(CName(k), "s", 0, TRUE, FALSE, TRUE, <<>>, <<>>, C_Text, <<>>)]
 Row32(r) == [k \in 1..32 |->
                IF k = 1 THEN IntV(r)
@@ -39,7 +39,9 @@ Dbs == [ d1 |-> [tabs |-> (T :> [cols |-> TabA, rows |-> <<<<IntV(1), sa>>, <<In
                           @@ (U :> [cols |-> TabB, rows |-> <<<<sa, IntV(-2147483647), IntV(-32767)>>, <<se2, IntV(2147483647), Null>>>>]),
                  \* "s"; "_" and "ab0": the ends of the packing alphabet as the odd character of a run
                  \* "a\u4840b": the table marker inside a name is an ordinary character
-                 streams |-> (<<115>> :> "b0102") @@ (<<95>> :> "b03") @@ (<<97, 98, 48>> :> "b04") @@ (<<97, 18496, 98>> :> "b05")],
+                 streams |-> (<<115>> :> "b0102") @@ (<<95>> :> "b03") @@ (<<97, 98, 48>> :> "b04") @@ (<<97, 18496, 98>> :> "b05")
+                             \* "-bc": a pair of packable characters that starts at an odd offset (runs pair up from where they start)
+                             @@ (<<45, 98, 99>> :> "b06")],
          d3 |-> [tabs |-> (T :> [cols |-> TabA, rows |-> <<>>]), streams |-> << >>],
          \* a string longer than 64 KiB (the pool's long form) next to a short one, in an unlimited-width column
          d4 |-> [tabs |-> (T :> [cols |-> <<ColK, StrCol(V, 0, TRUE, FALSE, <<>>)>>,
@@ -179,7 +181,9 @@ RejectImages == {[db |-> "d1", c |-> [Plain EXCEPT !.holes = "stale"]], [db |-> 
 
 \* with the "desc" layout the code-page property is listed LAST and the text is in Windows-1252: a reader must
 \* find the page before decoding any string
-SummaryOf(c) == IF c.ps = "desc" THEN [ImgSummary EXCEPT !.codepage = IntV(1252)] ELSE ImgSummary
+\* with the "gap" layout the template names the platform only ("x64", no language list and no separator)
+SummaryOf(c) == IF c.ps = "desc" THEN [ImgSummary EXCEPT !.codepage = IntV(1252)]
+                ELSE IF c.ps = "gap" THEN [ImgSummary EXCEPT !.languages = Absent] ELSE ImgSummary
 ImgJ(i, img) ==
   [db |-> i.db, c |-> i.c, ptype |-> "Installer", cp |-> i.c.cpid, longrefs |-> i.c.refw = 3,
    pool |-> img.pool,
@@ -218,7 +222,8 @@ FAlphabet ==
    E("Flush", [x |-> 0]), E("IntoInner", [x |-> 0]), E("Reopen", [x |-> 0])}
 \* refused calls naming the table that only orphan catalog rows describe: the rows stay (C04 on foreign catalogs)
 Gone == <<71, 111, 110, 101>>
-GoneRejects == {Drp(Gone), Cre(Gone, <<>>), Cre(Gone, <<ColV>>)}
+GoneRejects == {Drp(Gone), Cre(Gone, <<>>), Cre(Gone, <<ColV>>),
+                Cre(Gone, TabT)}      \* well-formed, refused only because the catalog already describes the name (found late by a careless writer)
 \* "foreignr" (C04): refused calls of every statement kind on catalogs another tool wrote, with and without orphan rows
 RAlphabet == {Ins(T, <<<<IntV(9)>>>>), Ins(T, <<<<IntV(1), sb>>>>), Upd(T, <<<<X, Null>>>>, True), Upd(T, <<<<K, sa>>>>, True),
               Del(T, Eq(X, IntV(1))), Drp(X), Cre(T, TabT), Cre(X, <<ColV>>), Ins(T, <<<<IntV(9), sb>>>>),
